@@ -80,7 +80,8 @@ Definition call_time (name:list N) (ps:list value) : bres :=
     | inr _ => BErr WrongParameterType
     | inl milli =>
       match ps with
-      | VNum h :: VNum mi :: VNum s :: _ => let h := to_u32 h in let mi := to_u32 mi in let s := to_u32 s in let ml := to_u32 milli in
+      | VNum h0 :: VNum mi0 :: VNum s0 :: _ => let h := to_u32 h0 in let mi := to_u32 mi0 in let s := to_u32 s0 in let ml := to_u32 milli in
+          if negb (ge0 h0 && ge0 mi0 && ge0 s0 && ge0 milli) then BErr CustomError else
           if (h <? 24) && (mi <? 60) && (s <? 60) && (ml <? 4294968) && ((ml <? 1000) || ((s =? 59) && (ml <? 2000))) then BOk (of_ms (((h * 60 + mi) * 60 + s) * 1000 + ml)) else BErr CustomError
       | _ :: _ :: _ :: _ => BErr WrongParameterType | _ => cnt 3%N end end
   else if is [105;110;99;95;109;111;110;116;104] then
